@@ -333,6 +333,16 @@ func parseContractFile(path, pkgPath string) (*ContractFile, error) {
 				last = nil
 				continue
 			}
+			if len(f) >= 3 && f[1] == "maintains" {
+				// loop N maintains inv1 inv2 ...: the named package invariants are loop invariants (expanded after loading)
+				n, err := strconv.Atoi(f[0])
+				if err != nil {
+					return nil, fmt.Errorf("%s:%d: loop ordinal: %v", path, ln+1, err)
+				}
+				cur.Clauses = append(cur.Clauses, &Clause{Kind: "loopmaintains", Loop: n, Text: strings.Join(f[2:], " "), Line: ln + 1})
+				last = nil
+				continue
+			}
 			if len(f) < 3 {
 				return nil, fmt.Errorf("%s:%d: loop N invariant|decreases e", path, ln+1)
 			}
@@ -396,6 +406,9 @@ func parseContractFile(path, pkgPath string) (*ContractFile, error) {
 	for _, c := range cf.Contracts {
 		for _, cl := range c.Clauses {
 			if cl.Kind == "loopframe" {
+				continue
+			}
+			if cl.Kind == "loopmaintains" {
 				continue
 			}
 			if cl.Kind == "modifies" {
@@ -620,6 +633,30 @@ func loadContracts(repo, specDir string) (map[string]*Contract, []GhostDecl, []*
 		if err := add(cf); err != nil {
 			return nil, nil, nil, err
 		}
+	}
+	// loop N maintains inv ...: expand to loop invariants carrying the named package invariants
+	invs := map[string]*Invariant{}
+	for _, cf := range files {
+		for _, inv := range cf.Invariants {
+			invs[inv.Name] = inv
+		}
+	}
+	for _, c := range out {
+		var cls []*Clause
+		for _, cl := range c.Clauses {
+			if cl.Kind != "loopmaintains" {
+				cls = append(cls, cl)
+				continue
+			}
+			for _, name := range strings.Fields(cl.Text) {
+				inv, ok := invs[name]
+				if !ok {
+					return nil, nil, nil, fmt.Errorf("%s:%d: loop %d maintains unknown invariant %s", c.File, cl.Line, cl.Loop, name)
+				}
+				cls = append(cls, &Clause{Kind: "loopinv", Loop: cl.Loop, Text: name, Expr: inv.Expr, Line: cl.Line})
+			}
+		}
+		c.Clauses = cls
 	}
 	return out, ghosts, files, nil
 }
